@@ -1,4 +1,5 @@
 import ScVerif.C08.IncludeLemmas
+import ScVerif.C08.DrvLemmas
 /-!
 # C08 — property theorems: include-filtered List/Pull behave as the filtered collection
 
@@ -153,6 +154,11 @@ example :
         (includeChange (some pAbsentTrue))).map (fun c => (c.kind, c.old, c.new))
       = [(.add, none, some 20), (.update, some 20, some 20), (.remove, some 20, none)] := by
   decide
+
+/-- the seed-order hypothesis of `C08_pull_matches_list`/`C08_seed_is_filtered_list` is met, for every
+predicate and contents, by the order the code (and the driver) uses: the listed items sorted by id -/
+example (p : Option (Pred String String)) (items : List (String × String)) :
+    (sortById (itemSlice p items)).Perm (itemSlice p items) := sortById_perm _
 
 end examples
 
